@@ -188,8 +188,9 @@ def run(ctx):
                     "hypothesis (counted as skipped)",
                samples=[dict(job=list(jobs[1]))])
     return common.finish(ctx, proof, corr, e2e, extra_assumptions=[
-        "the INCLUDE model is item-level (items opaque, file system a function); the general splice theorem is not "
-        "proved (a computed three-level instance is), it is checked against the real reader on every split",
+        "the INCLUDE model is item-level (items opaque, file system a function); the general splice theorem (reading "
+        "== textual inlining for every nest) is proved for the model and the model is checked against the real reader "
+        "on every split",
         "hypothesis: each included file is detected as the same source form as its parent"])
 
 
